@@ -12,6 +12,7 @@ import (
 	"runtime/debug"
 	"strings"
 	"sync"
+	"sync/atomic"
 
 	"encoding/hex"
 	"reflect"
@@ -778,6 +779,9 @@ func freshType(c *vh.Ctx, depth int) reflect.Type {
 		reflect.TypeOf([20]byte{}), reflect.TypeOf([][]byte{}),
 	}
 	n := 1 + c.Rng.Intn(5)
+	if depth >= 2 {
+		n = 6 + c.Rng.Intn(10) // a wide top-level struct: its typeinfo takes longer to generate
+	}
 	fs := make([]reflect.StructField, 0, n)
 	for i := 0; i < n; i++ {
 		freshCounter++
@@ -800,14 +804,14 @@ func freshType(c *vh.Ctx, depth int) reflect.Type {
 }
 
 func concurrentFirstUse(c *vh.Ctx, m *vh.Model) {
-	const workers = 8
-	rounds := c.Scale(60, 600)
+	const workers = 16
+	rounds := c.Scale(160, 1500)
 	for r := 0; r < rounds; r++ {
 		t := freshType(c, 2)
 		val := rlptypes.Fill(c.Rng, t, 3)
 		results := make([]string, workers)
-		var start, done sync.WaitGroup
-		start.Add(1)
+		var done sync.WaitGroup
+		var ready, gate int32
 		for w := 0; w < workers; w++ {
 			done.Add(1)
 			go func(w int) {
@@ -820,7 +824,11 @@ func concurrentFirstUse(c *vh.Ctx, m *vh.Model) {
 						}
 					}
 				}()
-				start.Wait()
+				// spin barrier: all workers leave within nanoseconds of each other, so that the
+				// losers of the race for the typecache entry arrive while the winner is still generating it
+				atomic.AddInt32(&ready, 1)
+				for atomic.LoadInt32(&gate) == 0 {
+				}
 				var enc []byte
 				var err error
 				if w%2 == 0 { // half of the workers meet the type in the encoder, half in the decoder
@@ -850,7 +858,10 @@ func concurrentFirstUse(c *vh.Ctx, m *vh.Model) {
 				results[w] = "ok " + vh.Hex(re)
 			}(w)
 		}
-		start.Done()
+		for i := 0; atomic.LoadInt32(&ready) < workers && i < 1e7; i++ {
+			runtime.Gosched()
+		}
+		atomic.StoreInt32(&gate, 1)
 		done.Wait()
 		// afterwards, single-threaded: the reference result
 		enc, err := rlp.EncodeToBytes(val.Interface())
